@@ -156,7 +156,7 @@ def run_one(drv, d, s, inst, P, induced, rankings, schedule, what, seed=0):
 def small_cases(draw, tier):
     mx = 6 if tier == "thorough" else 5
     scheme = draw(gen.dyadic_schemes())
-    ds = draw(gen.datasets(max_n=mx, min_n=2, max_m=4, shapes=SHAPES_ANY + SHAPES_COH))
+    ds = draw(gen.datasets(max_n=mx, min_n=2, max_m=4, shapes=SHAPES_ANY + SHAPES_COH, many="byte"))
     return {"scheme": scheme, "dataset": ds, "via_mutation": draw(mutate.via_strategy(ds["rankings"], p=4))}
 
 
@@ -193,7 +193,7 @@ def check_all_schedules(case, ctx):
 def coherent_cases(draw, tier):
     mx = 12 if tier == "thorough" else 8
     scheme = draw(gen.dyadic_schemes())
-    ds = draw(gen.datasets(max_n=mx, min_n=2, max_m=5, shapes=SHAPES_COH, allow_empty_rankings=False))
+    ds = draw(gen.datasets(max_n=mx, min_n=2, max_m=5, shapes=SHAPES_COH, allow_empty_rankings=False, many="thousand"))
     scheds = [draw(st.lists(st.integers(0, 11), min_size=0, max_size=12)) for _ in range(4)]
     return {"scheme": scheme, "dataset": ds, "schedules": scheds}
 
@@ -223,7 +223,7 @@ def check_sampled(case, ctx):
 def any_cases(draw, tier):
     mx = 12 if tier == "thorough" else 9
     scheme = draw(gen.dyadic_schemes())
-    ds = draw(gen.datasets(max_n=mx, min_n=2, max_m=5, shapes=SHAPES_ANY))
+    ds = draw(gen.datasets(max_n=mx, min_n=2, max_m=5, shapes=SHAPES_ANY, many="thousand"))
     scheds = [draw(st.lists(st.integers(0, 11), min_size=0, max_size=12)) for _ in range(3)]
     return {"scheme": scheme, "dataset": ds, "schedules": scheds,
             "via_mutation": draw(mutate.via_strategy(ds["rankings"], p=4))}
